@@ -44,6 +44,19 @@ func RedirectTable() map[string]string {
 	in.Redirect["os/exec.Command"] = "vstubCommand"
 	in.Redirect["(*os/exec.Cmd).Run"] = "vstubCmdRun"
 	in.Redirect["os.Exit"] = "vstubExit"
+	in.Redirect["os/exec.CommandContext"] = "vstubCommandContext"
+	in.Redirect["context.Background"] = "vstubBackground"
+	in.Redirect["context.TODO"] = "vstubBackground"
+	in.Redirect["os/signal.NotifyContext"] = "vstubNotifyContext"
+	in.Redirect["flag.NewFlagSet"] = "vstubNewFlagSet"
+	in.Redirect["(*flag.FlagSet).StringVar"] = "vstubFSStringVar"
+	in.Redirect["(*flag.FlagSet).BoolVar"] = "vstubFSBoolVar"
+	in.Redirect["(*flag.FlagSet).Parse"] = "vstubFSParse"
+	in.Redirect["(*flag.FlagSet).Args"] = "vstubFSArgs"
+	in.Redirect["(*flag.FlagSet).NArg"] = "vstubFSNArg"
+	in.Redirect["(*flag.FlagSet).Arg"] = "vstubFSArg"
+	in.Redirect["flag.NArg"] = "vstubNArg"
+	in.Redirect["log.Fatalln"] = "vstubFatalln"
 	// cmd/seccomp-profiler
 	pm := Module + "/cmd/seccomp-profiler"
 	in.Redirect["flag.Var"] = "vstubFlagVar"
